@@ -208,3 +208,28 @@ TWINS2 = [
     silent('twin2-value-setter-order', ['C08', 'C19', 'C02'], [(BT, "        self._value = value\n        self._update_raw_text(self._format_value(value))", "        raw_text = self._format_value(value)\n        self._value = value\n        self._update_raw_text(raw_text)")]),
 ]
 VARIANTS += TWINS2
+
+# ------------------------------------------------------------------ rules added after seeded round 2
+MERGE_OLD = "        a.tokens += b.tokens\n        if len(a.tokens) < _DOUBLE_LOAD_FACTOR:\n            a.rebuild()\n            self._blocks.pop(b.index)\n            self._update_block_indexes(b.index)\n        else:\n            length = len(a.tokens) >> 1\n            b.tokens[:] = a.tokens[length:]\n            del a.tokens[length:]\n            a.rebuild()\n            b.rebuild()"
+UPD_OLD = "            if block.index:\n                prev_block = self._blocks[block.index - 1]\n                self._merge_blocks(prev_block, block)\n            else:\n                next_block = self._blocks[block.index + 1]\n                self._merge_blocks(block, next_block)"
+ROUND2 = [
+    fire('r2-merge-rebalance-loses-b', ['C07'], [(TS, MERGE_OLD, "        total = len(a.tokens) + len(b.tokens)\n        if total < _DOUBLE_LOAD_FACTOR:\n            a.tokens += b.tokens\n            a.rebuild()\n            self._blocks.pop(b.index)\n            self._update_block_indexes(b.index)\n        else:\n            length = total >> 1\n            b.tokens[:] = a.tokens[length:]\n            del a.tokens[length:]\n            a.rebuild()\n            b.rebuild()")], 'TS-SEQ'),
+    silent('r2-twin-merge-late-concat', ['C07', 'C08'], [(TS, MERGE_OLD, "        total = len(a.tokens) + len(b.tokens)\n        if total < _DOUBLE_LOAD_FACTOR:\n            a.tokens.extend(b.tokens)\n            a.rebuild()\n            self._blocks.pop(b.index)\n            self._update_block_indexes(b.index)\n        else:\n            merged = a.tokens + b.tokens\n            length = total >> 1\n            a.tokens[:] = merged[:length]\n            b.tokens[:] = merged[length:]\n            a.rebuild()\n            b.rebuild()")]),
+    fire('r2-merge-neighbour-order', ['C07'], [(TS, UPD_OLD, "            neighbour = self._blocks[block.index - 1 if block.index else block.index + 1]\n            self._merge_blocks(neighbour, block)")], 'TS-SEQ'),
+    silent('r2-twin-merge-neighbour-order', ['C07', 'C08'], [(TS, UPD_OLD, "            if not block.index:\n                self._merge_blocks(block, self._blocks[1])\n            else:\n                self._merge_blocks(self._blocks[block.index - 1], block)")]),
+    fire('r2-merge-extend-no-rebuild', ['C07', 'C08'], [(TS, "        a.tokens += b.tokens\n        if len(a.tokens) < _DOUBLE_LOAD_FACTOR:\n            a.rebuild()\n", "        if len(a.tokens) + len(b.tokens) < _DOUBLE_LOAD_FACTOR:\n            a.extend(b.tokens)\n"),
+                                                        (TS, "        else:\n            length = len(a.tokens) >> 1\n            b.tokens[:] = a.tokens[length:]", "        else:\n            a.tokens += b.tokens\n            length = len(a.tokens) >> 1\n            b.tokens[:] = a.tokens[length:]")], 'TS-SEQ'),
+    fire('r2-split-keeps-old-block', ['C07'], [(TS, "        self._blocks[block.index:block.index+1] = new_blocks", "        self._blocks[block.index+1:block.index+1] = new_blocks")], 'TS-SEQ'),
+    fire('r2-multiblock-drops-tail', ['C07'], [(TS, "                    *self._blocks[end_i].tokens[end_j:], \n", "                    *self._blocks[end_i].tokens[end_j + 1:],\n")], 'TS-SEQ'),
+    fire('r2-fastpath-rehandle-from-end', ['C07', 'C08'], [(TS, "                for j in range(start_j, len(block.tokens)):\n                    block.tokens[j].store_handle = _StoreHandle(block=block, index=j)", "                for j in range(end_j, len(block.tokens)):\n                    block.tokens[j].store_handle = _StoreHandle(block=block, index=j)")], 'TS-SEQ'),
+    fire('r2-fastpath-no-line-patch', ['C08'], [(TS, "                block.size.line += lines_diff\n", "")], 'TS-SEQ'),
+    fire('r2-len-forgets-middle-blocks', ['C07'], [(TS, "                len_removed += len(self._blocks[i].tokens)\n", "")], 'TS-SEQ'),
+    silent('r2-twin-splice-locals', ['C07', 'C08'], [(TS, "            block = self._blocks[start_i]\n            lines_diff = 0\n", "            block = self._blocks[end_i]\n            lines_diff = 0\n")]),
+    fire('r2-numberexpr-bool', ['C09'], [(NE, "    def __pos__(self)", "    def __bool__(self) -> bool:\n        return bool(self.value)\n\n    def __pos__(self)")], 'PRESENCE-TRUTH'),
+    fire('r2-token-len', ['C09'], [(BT, "class SimpleSingleValueRawTokenModel(", "class _Measured:\n    def __len__(self) -> int:\n        return len(self.raw_text)  # type: ignore[attr-defined]\n\n\nclass SimpleSingleValueRawTokenModel(_Measured, ")], 'PRESENCE-TRUTH'),
+    silent('r2-twin-file-len', ['C09'], [('autobean_refactor/models/block_comment.py', "    def _clone(self: 'BlockComment') -> 'BlockComment':", "    def line_count(self) -> int:\n        return len(_splitlines(self._value))\n\n    def _clone(self: 'BlockComment') -> 'BlockComment':")]),
+    fire('r2-bc-blank-loses-indent', ['C15', 'C12'], [(BC, "        return ''.join(\n            f'{indent}; {line}' if line.rstrip('\\r\\n') else f'{indent};{line}'\n", "        prefix = f'{indent}; '\n        blank_prefix = prefix.strip()\n        return ''.join(\n            (prefix if line.rstrip('\\r\\n') else blank_prefix) + line\n")], 'BC-LINE'),
+    silent('r2-twin-bc-hoisted-prefix', ['C15', 'C12', 'C18'], [(BC, "        return ''.join(\n            f'{indent}; {line}' if line.rstrip('\\r\\n') else f'{indent};{line}'\n", "        prefix = f'{indent}; '\n        blank_prefix = prefix.rstrip()\n        return ''.join(\n            (prefix if line.rstrip('\\r\\n') else blank_prefix) + line\n")]),
+    fire('r2-bc-no-semicolon-space', ['C15', 'C12'], [(BC, "f'{indent}; {line}' if line", "f'{indent};{line}' if line")], 'BC-LINE'),
+]
+VARIANTS += ROUND2
